@@ -20,7 +20,8 @@ LEVEL = "proof"
 ASSUMPTIONS = [
     "sequential consistency at the granularity of Python attribute loads/stores and of the labelled lock, condition, socket and trigger operations (DESIGN.md 4.3); pre-emption inside C code is not modelled",
     "the client keeps reading: the socket is write-ready whenever it is polled for writing; the poll timeout does not exist (select blocks until a descriptor is ready or the trigger was pulled)",
-    "maintenance() and cancel() (server shutdown) are outside the model; one channel per I/O loop",
+    "maintenance() and cancel() (server shutdown) are outside the model; the model has one channel per I/O loop (runs with two connections are checked by the monitor only)",
+    "the trigger is abstracted to one bit: pulled <-> the pipe is not empty; checked after every operation of the runs that use the real waitress.trigger.trigger over harness/fake_pipe.FakeOS (os.pipe/read/write/close faked, nothing else)",
     "outbuf_high_watermark >= 0 (no class of runs is excluded)",
 ]
 
@@ -93,7 +94,11 @@ class Book:
             self.all_monitor = False
             ctx.report("monitor:" + probs[0].split(":")[0][:60] + ":" + _hash(sc),
                        "quiescent state of the real server violates C05: " + "; ".join(probs), rep)
-        line = cw.conform_lines(world, sc) if (world.channel is not None and self.runner is not None) else None
+        # runs with a second connection are monitored only (the model has one channel)
+        line = cw.conform_lines(world, sc) if (world.channel is not None and self.runner is not None
+                                               and not sc.get("conn2")) else None
+        if sc.get("real_trigger"):
+            self.stats["real_trigger_runs"] += 1
         if line is not None:
             self.distinct.add(_hash(line.split(" ")[7:] and [t.rsplit(";", 1)[0] for t in line.split(" ")[7:]]))
         self.pending.append((kind, policy, sc, list(world.sched.choices), cls, probs, kf, line))
@@ -181,13 +186,24 @@ def run(ctx):
         w, cls, probs = cw.run_one(sc, policy=pol)
         book.add(kind, pname, sc, w, cls, probs)
 
+    # (c2) two connections sharing the map, the loop and the pool (monitor only)
+    n_two = 600 if thorough else 90
+    for _ in range(n_two):
+        sc = cw.gen_two_conn(rng)
+        pname, pol = cw.gen_policy(rng)
+        w, cls, probs = cw.run_one(sc, policy=pol)
+        book.add("two-connections", pname, sc, w, cls, probs)
+
     # (d) real code: bounded exhaustive exploration of tiny scenarios
     exhaustive = []
     for sc in cw.tiny_scenarios():
         def on_world(w, cls, probs, sc=sc):
             book.add("tiny", "exhaustive", sc, w, cls, probs)
-        res = cw.explore_tiny(sc, 2 if thorough else 1, 1500 if thorough else 50, on_world)
-        exhaustive.append({"requests": len(sc["reqs"]), "poll2": sc["poll"], "runs": res["runs"],
+        ex = sc.get("explore") or {"bound": 2 if thorough else 1, "quick": 50, "thorough": 1500}
+        res = cw.explore_tiny(sc, ex["bound"], ex["thorough"] if thorough else ex["quick"], on_world)
+        exhaustive.append({"requests": len(sc["reqs"]) + (len(sc["conn2"]["reqs"]) if sc.get("conn2") else 0),
+                           "real_trigger": bool(sc.get("real_trigger")), "two_connections": bool(sc.get("conn2")),
+                           "poll2": sc["poll"], "runs": res["runs"],
                            "per_preemption_level": res["per_preemption_level"], "truncated": res["truncated"]})
     book.flush()
 
@@ -226,8 +242,9 @@ def run(ctx):
         "samples": book.samples,
         "distribution": "58%% main generator (1-3 requests, 1-3 chunks of 1..600 bytes, send_bytes in {1,50,150} <= watermark in {1,60,120,250,16MiB}, "
                         "lookahead 0..2, 1-3 workers, partial-send plans with EWOULDBLOCK/EPIPE/EHOSTUNREACH, 8%% recv faults, 30%% client close, "
-                        "locks/attrs granularity and poll/poll2 50/50); 12%% streaming application that waits for its consumer after every chunk (a worker parked in the application is a quiescent state too); 8%% watermark 0; 7%% send_bytes > watermark (both repaired finding classes, now expected to pass); 15%% pipelined Expect: 100-continue; "
-                        "schedules 45%% uniform random (stay 0..0.9), 55%% PCT depth 1-3; plus bounded exhaustive (pre-emption bound %d) on 8 tiny scenarios" % (2 if thorough else 1),
+                        "locks/attrs granularity, poll/poll2 and FakeTrigger / REAL trigger.trigger over a fake pipe each 50/50); 12%% streaming application that waits for its consumer after every chunk (a worker parked in the application is a quiescent state too); 8%% watermark 0; 7%% send_bytes > watermark (both repaired finding classes, now expected to pass); 15%% pipelined Expect: 100-continue; "
+                        "schedules 45%% uniform random (stay 0..0.9), 55%% PCT depth 1-3; plus %d two-connection runs (2-3 workers, one loop, cross-request dependency in half of them; monitor only); "
+                        "plus bounded exhaustive (pre-emption bound %d) on 11 tiny scenarios (two with the real trigger -- one of them always with 2 pre-emptions --, one with two connections)" % (n_two, 2 if thorough else 1),
     })
 
 
